@@ -6,6 +6,8 @@
 (*   outs     what each action returned or raised                          *)
 (*   access   [name |-> outcome of schema.<name>] afterwards               *)
 (*   dispatch [cls |-> [visitor |-> outcome of cls().__accept__(visitor)]] *)
+(*   render   how Formatter() renders a type error at a nested path:       *)
+(*            "default" (the library's text, naming the path) | "ext:..."  *)
 (* The verdict is about the clause C16 relies on; everything else is       *)
 (* compared with the model as drift.                                       *)
 (***************************************************************************)
@@ -19,9 +21,12 @@ Verdict(e) ==
   ELSE IF \E c \in BuiltinCls, v \in LibVisitors :
             e.dispatch[c][v] # "builtin" /\ ~Replaced(Final(e), c, v)
   THEN "FAIL:builtin_type_lost_its_visit_method:"
+  ELSE IF e.render # "default" /\ "format_type_error" \notin Final(e).own["Formatter"]
+  THEN "FAIL:message_rendering_changed_without_a_public_format_method_being_replaced:"
   ELSE "OK"
 
 Drift(e) ==
+  \/ e.render # RenderOut(Final(e))
   \/ e.outs # Outs(e.hist)
   \/ \E n \in Names : e.access[n] # AccessOut(Final(e), n)
   \/ \E c \in Instantiable, v \in Visitors : e.dispatch[c][v] # DispatchOut(Final(e), c, v)
